@@ -42,6 +42,8 @@ WhenLists == << <<1>>, <<2>>, <<7, 1>>, <<2, 8>>, <<3>>, <<4>>, <<5, 6>>, <<8, 7
 \* <>  ==  " and "  !=  >=  " or "  contains  ..  <  "and"  "=> x"
 OpLits == << <<60, 62>>, <<61, 61>>, <<32, 97, 110, 100, 32>>, <<33, 61>>, <<62, 61>>, <<32, 111, 114, 32>>, <<99, 111, 110, 116, 97, 105, 110, 115>>,
              <<46, 46>>, <<60>>, <<97, 110, 100>>, <<61, 62, 32, 120>> >>
+RECURSIVE DeepV(_, _)
+DeepV(d, leaf) == IF d = 0 THEN leaf ELSE Arr(<<DeepV(d - 1, leaf)>>)
 Cases ==
   [g : {"chain"}, n : {1}, v1 : 1..NCU, v2 : {1}, v3 : {1}, els : BOOLEAN]
   \cup [g : {"chain"}, n : {2}, v1 : 1..NCU, v2 : 1..NCU, v3 : {1}, els : BOOLEAN]
@@ -53,6 +55,8 @@ Cases ==
   \cup [g : {"midelse"}, a : BOOLEAN, b : BOOLEAN, shape : 1..4]
   \* string literals in conditions that look like operators: they are strings
   \cup [g : {"oplit"}, k : 1..Len(OpLits)]
+  \* subject and when-value nested many levels deep, an integer innermost here and the equal float there
+  \cup [g : {"deep"}, d : {33, 70}, same : BOOLEAN]
   \* and / or over values reached by a property lookup (m.x, m.y): exactly nil and false count as false, also when
   \* the value sits behind a Drop or a pointer (second emitted variant)
   \cup [g : {"logic"}, v1 : 1..NCU, v2 : {1, 2, 3, 4, 5}, op : {"and", "or"}]
@@ -86,6 +90,11 @@ ProgOf(x) ==
                 [t |-> "if", branches |-> <<[c |-> [t |-> "cmp", op |-> "contains", a |-> Var(<<116>>), b |-> L], body |-> Mark(5)]>>],
                 [t |-> "if", branches |-> <<[c |-> Lit(Bool(FALSE)), body |-> Mark(7)], [c |-> [t |-> "cmp", op |-> "==", a |-> L, b |-> Var(<<115>>)], body |-> Mark(6)]>>],
                 [t |-> "case", e |-> Var(<<115>>), pre |-> <<>>, whens |-> <<[vals |-> <<L>>, body |-> Mark(8)], [else |-> TRUE, vals |-> <<>>, body |-> Mark(9)]>>] >>
+    [] x.g = "deep" ->
+         LET eq == [t |-> "cmp", op |-> "==", a |-> Var(<<115>>), b |-> Var(<<119>>)]
+         IN  << [t |-> "case", e |-> Var(<<115>>), pre |-> <<>>, whens |-> <<[vals |-> <<Lit(IntV(5)), Var(<<119>>)>>, body |-> Mark(1)], [else |-> TRUE, vals |-> <<>>, body |-> Mark(2)]>>],
+                [t |-> "if", branches |-> <<[c |-> eq, body |-> Mark(1)], [c |-> ElseC, body |-> Mark(2)]>>],
+                [t |-> "if", neg |-> TRUE, branches |-> <<[c |-> eq, body |-> Mark(2)], [c |-> ElseC, body |-> Mark(1)]>>] >>
     [] x.g = "later" ->
          << [t |-> "if", branches |-> [i \in 1..3 |-> [c |-> IF i = x.pos THEN Failing ELSE Lit(Bool(i = x.sel)), body |-> Mark(i)]]
                                       \o <<[c |-> ElseC, body |-> Mark(4)]>>] >>
@@ -141,6 +150,7 @@ EnvOf2(x) ==
     [] x.g = "dual" -> << <<CN(1), CU[x.v1]>> >>
     [] x.g = "later" -> <<>>
     [] x.g = "midelse" -> << <<CN(1), Bool(x.a)>>, <<CN(2), Bool(x.b)>> >>
+    [] x.g = "deep" -> << <<<<115>>, DeepV(x.d, IntV(1))>>, <<<<119>>, DeepV(x.d, IF x.same THEN Flt(1, 1) ELSE IntV(2))>> >>
     [] x.g = "oplit" -> << <<<<115>>, Str(OpLits[x.k])>>, <<<<116>>, Str(<<97>> \o OpLits[x.k] \o <<98>>)>> >>
     [] x.g = "loop" -> << <<<<120>>, IntV(x.x)>> >>
     [] x.g = "logic" -> << <<<<109>>, MapV(<< <<<<120>>, CU[x.v1]>>, <<<<121>>, CU[x.v2]>> >>)>> >>
@@ -160,6 +170,7 @@ Decl(x) ==   \* [status, out]
          LET vs == SubSeq(<<x.v1, x.v2, x.v3>>, 1, x.n) f == FirstTrue(vs)
          IN  [status |-> "ok", out |-> IF f > 0 THEN ME(x, f) ELSE IF x.els THEN ME(x, 4) ELSE <<>>]
     [] x.g = "dual" -> [status |-> "ok", out |-> IF Tr(x.v1) THEN <<65, 124, 65>> ELSE <<66, 124, 66>>]
+    [] x.g = "deep" -> [status |-> "ok", out |-> IF x.same THEN M(1) \o M(1) \o M(1) ELSE M(2) \o M(2) \o M(2)]
     [] x.g = "oplit" -> [status |-> "ok", out |-> M(1) \o M(4) \o M(5) \o M(6) \o M(8)]
     [] x.g = "midelse" -> [status |-> "ok", out |-> IF (x.a /\ x.shape # 3) \/ (~x.a /\ x.shape = 3) THEN M(1) ELSE M(2)]
     [] x.g = "later" ->
@@ -209,6 +220,7 @@ IfUnlessDual == c.g = "dual" /\ st.status = "ok" =>
 IdOf(x) ==
   CASE x.g = "chain" -> "chain-" \o ToString(x.n) \o "-" \o ToString(x.v1) \o "-" \o ToString(x.v2) \o "-" \o ToString(x.v3) \o "-" \o ToString(x.els) \o "-e" \o ToString(Emp(x))
     [] x.g = "dual" -> "dual-" \o ToString(x.v1)
+    [] x.g = "deep" -> "deep-" \o ToString(x.d) \o "-" \o ToString(x.same)
     [] x.g = "oplit" -> "oplit-" \o ToString(x.k)
     [] x.g = "midelse" -> "midelse-" \o ToString(x.a) \o "-" \o ToString(x.b) \o "-" \o ToString(x.shape)
     [] x.g = "later" -> "later-" \o ToString(x.pos) \o "-" \o ToString(x.sel)
